@@ -288,11 +288,15 @@ func c08Run(w *core.W) {
 		}
 	}
 	// (5) key shortcuts with additionalProperties
-	for _, ap := range []string{"", ` // {additionalProperties: true}`, ` // {additionalProperties: false}`, ` // {additionalProperties: "string"}`, ` // {additionalProperties: "@o"}`} {
-		for _, body := range []string{"\t@s: 1", "\t\"k\": 1,\n\t@s: \"v\"", "\t@s: 1,\n\t\"k\": true", "\t@s: {\n\t\t\"in\": 1\n\t}",
+	aps := []string{"", ` // {additionalProperties: true}`, ` // {additionalProperties: false}`, ` // {additionalProperties: "@o"}`}
+	for _, t := range []string{"string", "integer", "float", "decimal", "boolean", "null", "array", "object", "any", "email", "uri", "uuid", "date", "datetime", "enum", "mixed"} {
+		aps = append(aps, ` // {additionalProperties: "`+t+`"}`)
+	}
+	for _, ap := range aps {
+		for _, body := range []string{"", "\t\"k\": 1", "\t@i: 1", "\t@o: {\n\t\t\"ok\": 1\n\t},\n\t@s: \"v\"", "\t\"k\": [],\n\t@arr: [\n\t\t1\n\t]","\t@s: 1", "\t\"k\": 1,\n\t@s: \"v\"", "\t@s: 1,\n\t\"k\": true", "\t@s: {\n\t\t\"in\": 1\n\t}",
 			"\t\"\": 1,\n\t@s: \"v\"", "\t@s: 1,\n\t\"\": true,\n\t\"@s\": 2", "\t\"\": {\n\t\t@s: 1\n\t}"} {
 			if mine() {
-				c08Case(w, &project{Root: "{" + ap + "\n" + body + "\n}", Types: map[string]string{"@s": c05Defs["@s"], "@o": c05Defs["@o"]}}, "key-shortcuts")
+				c08Case(w, &project{Root: "{" + ap + "\n" + body + "\n}", Types: map[string]string{"@s": c05Defs["@s"], "@o": c05Defs["@o"], "@i": `1 // {min: 0}`, "@arr": "[\n\t1\n]"}}, "key-shortcuts")
 			}
 		}
 	}
